@@ -1044,6 +1044,25 @@ class BranchCoverageInstrumentation(transformer.BranchCoverageInstrumentationAda
 
         compare = self.extract_comparison(instr)
 
+        if compare in {PynguinCompare.IN, PynguinCompare.NOT_IN}:
+            # A membership test on a one-shot iterator must not be evaluated in front of
+            # the comparison, so its outcome is reported right after it (inserted first,
+            # so that the index of the comparison stays valid).
+            node.basic_block[after(instr_index)] = (
+                self.instructions_generator.generate_instructions(
+                    InstrumentationSetupAction.COPY_FIRST,
+                    InstrumentationMethodCall(
+                        self._subject_properties.instrumentation_tracer,
+                        tracer.InstrumentationExecutionTracer.executed_membership_outcome.__name__,
+                        (
+                            InstrumentationStackValue.FIRST,
+                            InstrumentationConstantLoad(value=predicate_id),
+                        ),
+                    ),
+                    instr.lineno,
+                )
+            )
+
         # Insert instructions right before the comparison.
         # We duplicate the values on top of the stack and report
         # them to the tracer.
